@@ -245,9 +245,19 @@ static int operand_tok(struct instr *instr_buffer, char *opds, int opd_pos) {
   FAIL_IF(opds[0] != '\0' && opds[strlen(opds) - 1] == ',');
   // get the 1st operand
   char *all_opd = strtok_r(opds, ",", &saved_opd);
+  union keywords before = instr_buffer->keyword;
   check_for_keyword(instr_buffer, all_opd, opd_pos);
   // get the operand type can be 'i', 'r', or 'm'
   instr_buffer->opd[opd_pos].type = get_operand_type(all_opd);
+  // a size keyword in front of an immediate that follows other operands
+  // (nasm: `add rax, byte 5`) hints at the width of the immediate only: the
+  // operand size is that of the other operands
+  if (instr_buffer->opd[opd_pos].type == 'i' && opd_pos != FIRST_OPERAND) {
+    instr_buffer->keyword.is_byte = before.is_byte;
+    instr_buffer->keyword.is_word = before.is_word;
+    instr_buffer->keyword.is_dword = before.is_dword;
+    instr_buffer->keyword.is_qword = before.is_qword;
+  }
   FAIL_IF(check_operand_type(instr_buffer, all_opd, opd_pos, saved_opd));
   // get next operand
   char *next_operands = strtok_r(NULL, "", &saved_opd);
